@@ -386,7 +386,7 @@ func (g *testGen) dump(e string, typ types.Type, depth int) string {
 		if u.Len() <= 64 {
 			g.nvar++
 			v := fmt.Sprintf("a%d", g.nvar)
-			return fmt.Sprintf(`func() vfCV { %s := %s; es := []vfCV{}; for i := range %s { es = append(es, %s) }; return vfCV{"k": "slice", "e": es} }()`,
+			return fmt.Sprintf(`func() vfCV { %s := %s; es := []vfCV{}; for i := range %s { _ = i; es = append(es, %s) }; return vfCV{"k": "slice", "e": es} }()`,
 				v, e, v, g.dump(v+"[i]", u.Elem(), depth+1))
 		}
 	case *types.Pointer:
@@ -831,8 +831,12 @@ func (vc *VC) boundTerms(t Term, typ types.Type, heap *Heap, depth int, out *[]T
 		}
 	case *types.Pointer:
 		el := u.Elem()
-		if st, ok := el.Underlying().(*types.Struct); ok && !isU256(el) && !isBigInt(el) && strings.Contains(vc.scriptHeader, smtIdent("P:"+typeKey(el))) {
-			obj := tSelect(vc.heapGet(heap, vc.ptrComp(el)), t)
+		if st, ok := el.Underlying().(*types.Struct); ok && !isU256(el) && !isBigInt(el) {
+			hv := vc.heapGet(heap, vc.ptrComp(el))
+			if !strings.Contains(vc.scriptHeader, "declare-fun "+hv.S+" ") && !strings.Contains(vc.scriptHeader, "define-fun "+hv.S+" ") && !strings.Contains(vc.scriptHeader, "declare-const "+hv.S+" ") {
+				return
+			}
+			obj := tSelect(hv, t)
 			si := vc.structInfoOf(el, st)
 			for i, f := range si.fields {
 				ft := si.ftypes[i]
